@@ -128,6 +128,21 @@ def property_obligations(pid):
                 axioms=sorted(set(axioms)), raw=raw[-3000:])
 
 
+def coqchk(pid, timeout=1500):
+    """thorough tier: re-check the compiled property file and everything it depends on with the independent checker and
+    report the axioms it relies on (`coqchk -o`)."""
+    try:
+        p = subprocess.run(['coqchk', '-silent', '-o', '-R', 'theories', 'EQL', f'EQL.Properties.{pid}'], cwd=COQ, capture_output=True,
+                           text=True, timeout=timeout)
+    except subprocess.TimeoutExpired:
+        return dict(ok=False, summary='coqchk timed out')
+    out = p.stdout + p.stderr
+    m = re.search(r'CONTEXT SUMMARY(.*)', out, re.S)
+    summary = ' '.join((m.group(1) if m else out[-800:]).split())
+    ok = p.returncode == 0 and '* Axioms: <none>' in ' '.join(out.split())
+    return dict(ok=ok, summary=summary[:900])
+
+
 # ----------------------------------------------------------------------------------------------
 # Running the model: generated cases_*.v evaluated by vm_compute
 # ----------------------------------------------------------------------------------------------
